@@ -204,6 +204,11 @@ impl Allocator {
     #[cfg(feature = "gc_stress")]
     self.collect_garbage_with_value(context, reference);
 
+    #[cfg(laythe_verif)]
+    if verif::should_collect() {
+      self.collect_garbage_with_value(context, reference);
+    }
+
     if self.bytes_allocated > self.next_gc {
       self.collect_garbage_with_value(context, reference);
     }
@@ -233,6 +238,11 @@ impl Allocator {
 
     #[cfg(feature = "gc_stress")]
     self.collect_garbage_with_value(context, obj);
+
+    #[cfg(laythe_verif)]
+    if verif::should_collect() {
+      self.collect_garbage_with_value(context, obj);
+    }
 
     if self.bytes_allocated > self.next_gc {
       self.collect_garbage_with_value(context, obj);
@@ -353,6 +363,15 @@ impl Allocator {
   fn sweep_obj_heap(&mut self) -> usize {
     #[cfg(feature = "gc_stress")]
     return self.sweep_obj_full();
+
+    #[cfg(all(laythe_verif, not(feature = "gc_stress")))]
+    if let Some(full) = verif::force_full() {
+      return if full {
+        self.sweep_obj_full()
+      } else {
+        self.sweep_obj_nursery()
+      };
+    }
 
     #[cfg(not(feature = "gc_stress"))]
     if self.gc_count % 10 == 0 {
@@ -534,6 +553,125 @@ fn debug_free_obj(obj: &ObjectHandle) {
     obj.size(),
     DebugWrapDyn(obj, 1)
   )
+}
+
+/// Verification hooks (compiled only with `--cfg laythe_verif`)
+#[cfg(laythe_verif)]
+pub mod verif {
+  use std::cell::Cell;
+
+  /// When does an allocation trigger a collection (in addition to the byte threshold)
+  #[derive(Clone, Copy, Debug, PartialEq, Eq)]
+  pub enum Schedule {
+    /// only the built in byte threshold
+    Default,
+    /// every k-th allocation
+    EveryK(u64),
+    /// a xorshift coin: collect when `next() % den < num`
+    Coin { num: u64, den: u64 },
+  }
+
+  thread_local! {
+    static SCHEDULE: Cell<Schedule> = const { Cell::new(Schedule::Default) };
+    static COUNTER: Cell<u64> = const { Cell::new(0) };
+    static RNG: Cell<u64> = const { Cell::new(0x9E37_79B9_7F4A_7C15) };
+    static FORCE_FULL: Cell<Option<bool>> = const { Cell::new(None) };
+    static COLLECTIONS: Cell<u64> = const { Cell::new(0) };
+  }
+
+  pub fn set_schedule(schedule: Schedule, seed: u64) {
+    SCHEDULE.with(|s| s.set(schedule));
+    COUNTER.with(|c| c.set(0));
+    RNG.with(|r| r.set(seed | 1));
+  }
+
+  /// `Some(true)`: every collection sweeps both generations, `Some(false)`: only the nursery,
+  /// `None`: the built in `gc_count % 10` rule
+  pub fn set_force_full(full: Option<bool>) {
+    FORCE_FULL.with(|f| f.set(full));
+  }
+
+  pub fn force_full() -> Option<bool> {
+    FORCE_FULL.with(|f| f.get())
+  }
+
+  pub fn scheduled_collections() -> u64 {
+    COLLECTIONS.with(|c| c.get())
+  }
+
+  pub fn should_collect() -> bool {
+    let hit = match SCHEDULE.with(|s| s.get()) {
+      Schedule::Default => false,
+      Schedule::EveryK(k) => {
+        let n = COUNTER.with(|c| {
+          c.set(c.get() + 1);
+          c.get()
+        });
+        k > 0 && n % k == 0
+      },
+      Schedule::Coin { num, den } => {
+        let x = RNG.with(|r| {
+          let mut x = r.get();
+          x ^= x << 13;
+          x ^= x >> 7;
+          x ^= x << 17;
+          r.set(x);
+          x
+        });
+        den > 0 && x % den < num
+      },
+    };
+    if hit {
+      COLLECTIONS.with(|c| c.set(c.get() + 1));
+    }
+    hit
+  }
+
+  /// A snapshot of the allocator's bookkeeping
+  #[derive(Clone, Debug, PartialEq, Eq)]
+  pub struct Stats {
+    pub bytes_allocated: usize,
+    pub next_gc: usize,
+    pub gc_count: u128,
+    pub heap_len: usize,
+    pub obj_heap_len: usize,
+    pub nursery_len: usize,
+    pub heap_bytes: usize,
+    pub obj_heap_bytes: usize,
+    pub nursery_bytes: usize,
+    pub intern_len: usize,
+    pub temp_roots: usize,
+  }
+}
+
+#[cfg(laythe_verif)]
+impl Allocator {
+  pub fn verif_stats(&self) -> verif::Stats {
+    verif::Stats {
+      bytes_allocated: self.bytes_allocated,
+      next_gc: self.next_gc,
+      gc_count: self.gc_count,
+      heap_len: self.heap.len(),
+      obj_heap_len: self.obj_heap.len(),
+      nursery_len: self.nursery_obj_heap.len(),
+      heap_bytes: self.heap.iter().map(|h| h.size()).sum(),
+      obj_heap_bytes: self.obj_heap.iter().map(|h| h.size()).sum(),
+      nursery_bytes: self.nursery_obj_heap.iter().map(|h| h.size()).sum(),
+      intern_len: self.intern_cache.len(),
+      temp_roots: self.temp_roots.len(),
+    }
+  }
+
+  /// the contents of the intern table, sorted
+  pub fn verif_intern_keys(&self) -> Vec<String> {
+    let mut keys: Vec<String> = self.intern_cache.keys().map(|k| k.to_string()).collect();
+    keys.sort();
+    keys
+  }
+
+  pub fn verif_set_next_gc(&mut self, next_gc: usize) {
+    self.next_gc = next_gc;
+  }
 }
 
 impl Default for Allocator {
